@@ -192,6 +192,47 @@ class Adapter(object):
                     if args[1]:
                         src.translate(np.array([0.0, 0.0, args[1] * H]))
                 g.copy_layers_from(src)
+            elif op == "add_delete_node":
+                # a node added away from the mesh and deleted again (primitives of the statement's list)
+                m = core.repo_modules("mulgrids")
+                name = g.new_node_name()[0] if hasattr(g, "new_node_name") else "zzz"
+                g.add_node(m.node(name, np.array([args[0] * H, args[1] * H])))
+                g.delete_node(name)
+            elif op == "add_delete_well":
+                m = core.repo_modules("mulgrids")
+                g.add_well(m.well("w%4d" % args[0], [np.array([0.5 * H, 0.5 * H, 0.0]), np.array([0.5 * H, 0.5 * H, -4 * H])]))
+                g.add_well(m.well("v%4d" % args[0], [np.array([1.5 * H, 0.5 * H, 0.0]), np.array([1.5 * H, 1.5 * H, -8 * H])]))
+                g.delete_well("w%4d" % args[0])
+            elif op == "add_layer_below":
+                # a layer appended below the model; like delete_column a primitive: the caller refreshes counts and name lists
+                m = core.repo_modules("mulgrids")
+                bot = g.layerlist[-1].bottom
+                g.add_layer(m.layer(args[0], bot - args[1] * H, bot - 0.5 * args[1] * H, bot))
+                for c_ in g.columnlist:
+                    g.set_column_num_layers(c_)
+                g.setup_block_name_index()
+                g.setup_block_connection_name_index()
+            elif op == "delete_bottom_layer":
+                g.delete_layer(g.layerlist[-1].name)
+                for c_ in g.columnlist:
+                    g.set_column_num_layers(c_)
+                g.setup_block_name_index()
+                g.setup_block_connection_name_index()
+            elif op == "snap_columns_to_nearest_layers":
+                if args and args[0]:
+                    g.snap_columns_to_nearest_layers([g.column[n] for n in args[0]])
+                else:
+                    g.snap_columns_to_nearest_layers()
+            elif op == "fit_surface":
+                # scattered elevation data over the mesh: a plane dipping across it, on the lattice
+                b = g.bounds
+                pts = []
+                for i_ in range(5):
+                    for j_ in range(5):
+                        x = b[0][0] + (b[1][0] - b[0][0]) * i_ / 4.0
+                        y = b[0][1] + (b[1][1] - b[0][1]) * j_ / 4.0
+                        pts.append([x, y, g.layerlist[0].bottom - args[0] * H * (i_ + j_) / 8.0])
+                g.fit_surface(np.array(pts), alpha=0.1, beta=0.1, layer_snap=args[1] * H, silent=True)
             elif op == "add_column_taken_name":
                 # a column under a name that is taken: add_column is documented to leave the geometry alone
                 m = core.repo_modules("mulgrids")
@@ -526,6 +567,17 @@ def op_alphabet(geo, rng, rich):
     ops.append({"op": "translate", "args": [rng.choice([4, -8]), rng.choice([0, 4]), rng.choice([0, -4, 4, 12])]})        # also up by more than the top layer
     ops.append({"op": "rotate90", "args": [rng.choice([1, 2, 3])]})
     ops.append({"op": "check", "args": []})
+    ops.append({"op": "add_delete_node", "args": [rng.choice([-40, 400]), rng.choice([-40, 400])]})
+    ops.append({"op": "add_delete_well", "args": [rng.randint(1, 99)]})
+    ops.append({"op": "snap_columns_to_nearest_layers", "args": [[]]})
+    if names:
+        ops.append({"op": "snap_columns_to_nearest_layers", "args": [rng.sample(names, rng.randint(1, len(names)))]})
+    ops.append({"op": "fit_surface", "args": [rng.choice([4, 8]), rng.choice([0, 1])]})
+    free_lb = [n for n in (" 6", " 5") if n not in geo.layer]
+    if free_lb and len(geo.layerlist) < 10:
+        ops.append({"op": "add_layer_below", "args": [free_lb[0], rng.choice([2, 4])]})
+    if len(geo.layerlist) > 3 and all(c.surface > geo.layerlist[-2].bottom for c in geo.columnlist):
+        ops.append({"op": "delete_bottom_layer", "args": []})
     ops.append({"op": "snap_columns_to_layers", "args": [2]})
     if len(names) > 1:
         sub = rng.sample(names, rng.randint(1, len(names) - 1))
@@ -561,7 +613,10 @@ def totals(geo):
         for c in geo.columnlist:
             if c.surface > lay.bottom:
                 lv += geo.block_volume(lay, c)          # the library's own block volumes (what fromgeo uses)
-    return {"area": ga, "cached_area": ca, "volume": gv, "cached_volume": cv, "library_volume": lv, "worst_cached_area_error": worst}
+    wells_ok = sorted(geo.well) == sorted(w.name for w in geo.welllist) and all(geo.well[w.name] is w for w in geo.welllist) \
+        and len(set(w.name for w in geo.welllist)) == len(geo.welllist)
+    return {"area": ga, "cached_area": ca, "volume": gv, "cached_volume": cv, "library_volume": lv, "worst_cached_area_error": worst,
+            "wells_ok": wells_ok}
 
 
 def record(ad, ops_seq):
